@@ -75,7 +75,7 @@ def main():
         meta = json.load(open(meta_path)) if os.path.exists(meta_path) else {}
         meta.update({
             "seed_id": seed_id,
-            "breaks_property": props[0] if props else None,
+            "breaks_property": meta.get("breaks_property") or (props[0] if props else None),
             "origin": "written by a fresh sub-agent that saw only the property text and a scratch worktree",
             "needs_to_manifest": meta.get("needs_to_manifest") or notes.strip().split("\n\n")[0][:1200],
             "confirmed": {
